@@ -4,7 +4,7 @@ use crate::{
     character_class::CharacterClass,
     operation::{Operation, OperationControl, MATCHES_ZLS_NEVER},
     re_flags::ReFlags,
-    re_matcher::ReMatcher,
+    re_matcher::{ReMatcher, Snapshot},
 };
 
 // A choice of several branches within a regular expression.
@@ -88,7 +88,12 @@ impl OperationControl for Choice {
         matcher: &'a ReMatcher<'a>,
         position: usize,
     ) -> Box<dyn Iterator<Item = usize> + 'a> {
-        Box::new(ChoiceIterator::new(matcher, position, &self.branches))
+        Box::new(ChoiceIterator::new(
+            matcher,
+            position,
+            &self.branches,
+            self.contains_capturing_expressions(),
+        ))
     }
 
     fn children(&self) -> Vec<Operation> {
@@ -101,24 +106,40 @@ struct ChoiceIterator<'a> {
     position: usize,
     branches_iter: Box<dyn Iterator<Item = &'a Operation> + 'a>,
     current_iter: Option<Box<dyn Iterator<Item = usize> + 'a>>,
+    // the captured groups as they were before any branch was tried
+    saved_state: Option<Snapshot>,
 }
 
 impl<'a> ChoiceIterator<'a> {
-    fn new(matcher: &'a ReMatcher<'a>, position: usize, branches: &'a [Operation]) -> Self {
+    fn new(
+        matcher: &'a ReMatcher<'a>,
+        position: usize,
+        branches: &'a [Operation],
+        contains_capturing_expressions: bool,
+    ) -> Self {
+        let saved_state = if contains_capturing_expressions {
+            Some(matcher.snapshot())
+        } else {
+            None
+        };
         Self {
             matcher,
             position,
             branches_iter: Box::new(branches.iter()),
             current_iter: None,
+            saved_state,
         }
     }
 
     fn next_branch(&mut self) -> bool {
         // look for the next branch
         let next_op = self.branches_iter.next();
+        // groups captured by the branch that is being abandoned are forgotten
+        if let Some(saved_state) = &self.saved_state {
+            self.matcher.restore(saved_state);
+        }
         if let Some(next_op) = next_op {
             // if there is one, set the current iter to that one
-            self.matcher.clear_captured_groups_beyond(self.position);
             self.current_iter = Some(next_op.matches_iter(self.matcher, self.position));
             true
         } else {
